@@ -3,6 +3,7 @@
 from __future__ import annotations
 
 import ast
+import re
 from typing import Dict, List, Optional, Set, Tuple
 
 from ..core import effrules
@@ -113,6 +114,42 @@ def check(repo: Repo, run: Run) -> None:
         "F5: ValueError/TypeError raised by a host function are converted (effect engine, host-function model). "
         "Not decided: 'once per call site' and the argument values."
     )
+    # F7: a supplied function is any callable (functools.partial, a callable object, a bound method): the library may
+    # call it and store it, but must not read attributes only plain functions have (__name__, __qualname__, __module__,
+    # __code__) from a callable that came out of the function table -- in an exception handler or a message that
+    # read raises AttributeError, which replaces the evaluation error the call should have produced.
+    # Exempt: the list form of `functions` (documented to key by __name__, F2) and Phase1Transpiler.func_name (F3's finding).
+    FUNC_ONLY = {"__name__", "__qualname__", "__module__", "__code__", "__defaults__", "__wrapped__"}
+    n7 = 0
+    ev = repo.mod("evaluation")
+    for q, fn in ev.functions():
+        if q in ("Activation.__init__", "Phase1Transpiler.func_name") or q.split(".")[0] in ("eval_error",):
+            continue
+        table_names = set()
+        for n in ast.walk(fn):
+            src = tgt = None
+            if isinstance(n, ast.Assign) and len(n.targets) == 1:
+                src, tgt = n.value, n.targets[0]
+            elif isinstance(n, (ast.For, ast.comprehension)):
+                src, tgt = n.iter, n.target
+            if src is None:
+                continue
+            stxt = ast.unparse(src)
+            from_table = "resolve_function(" in stxt or re.search(r"\bfunctions\b(\.maps\[\d+\])?(\.(items|values)\(\)|\[)", stxt) is not None
+            if from_table:
+                names = [x.id for x in ast.walk(tgt) if isinstance(x, ast.Name)]
+                # `for name, f in table.items()`: the callable is the last name
+                table_names.update(names[-1:] if ".items()" in stxt else names)
+        if not table_names:
+            continue
+        n7 += 1
+        reads = [n for n in ast.walk(fn) if isinstance(n, ast.Attribute) and n.attr in FUNC_ONLY and isinstance(n.value, ast.Name) and n.value.id in table_names]
+        short = q
+        run.ob("C14.F7", f"{short}|callable attributes", not reads,
+               f"{q} only calls / stores the callable it takes from the function table" if not reads else
+               f"{q} reads `{ast.unparse(reads[0])}` of a callable taken from the function table ({len(reads)} site(s)): a supplied functools.partial / callable object has no such attribute, so AttributeError "
+               "escapes where an evaluation error (absorbed by ||, &&, ?:) was due", ev.loc(reads[0]) if reads else ev.loc(fn))
+    run.floor("C14.F7", n7, 8)
     # F6: a supplied function is bound "for this program only": nothing on the path that resolves or names a function
     # may be a process-wide table filled by an earlier program (instances shared with C05's storage-channel inventory;
     # the whole inventory is imported because any shared cell written while building a program can carry a function)
